@@ -112,6 +112,11 @@ def load_variants(prop: str):
             if cb['property'] == prop:
                 with open(patch_p) as f:
                     out.append(('seeded/' + os.path.basename(d), 'patch', f.read(), cb['rules'][0], meta.get('summary', '')))
+    # known findings with a written (uncommittable) repair: on the repaired tree the finding must be gone and nothing new reported
+    for p in sorted(glob.glob(os.path.join(HERE, 'findings', f'{prop}-*-candidate-fix.diff'))):
+        rule = os.path.basename(p).split('-')[1]
+        with open(p) as f:
+            out.append(('repaired/' + os.path.basename(p), 'patch', f.read(), 'gone:' + rule, 'candidate repair of a known finding'))
     return out
 
 
@@ -155,6 +160,7 @@ def _run_variant(args):
     if ctx is None:
         return 'error', []
     new = [(f.rule, f.key) for f in ctx.findings if f.key not in base_keys]
+    new += [('still:' + f.rule, f.key) for f in ctx.findings if f.key in base_keys]
     return 'ok', new
 
 
@@ -167,6 +173,15 @@ def run_selftest(prop: str, rule_module, repo: Repo, base_keys=frozenset()) -> d
     jobs = [(prop, rule_module.__name__, kind, payload, base_keys) for _, kind, payload, _, _ in variants]
     outs = parallel_map(_run_variant, jobs, min_items=2)
     for (vid, kind, payload, expect, note), (status, new) in zip(variants, outs):
+        still = {r[6:] for r, _ in new if r.startswith('still:')}
+        new = [(r, k) for r, k in new if not r.startswith('still:')]
+        if expect.startswith('gone:') and status == 'ok':
+            res['run'] += 1
+            if expect[5:] in still or new:
+                res['false_alarms'].append(f'{vid}: repaired tree still reported {sorted(still | {r for r, _ in new})}')
+            else:
+                res['silent_ok'] += 1
+            continue
         if kind == 'rev' and status == 'ok':
             res['refound'] = res.get('refound', 0) + (1 if expect in {r for r, _ in new} else 0)
         if status == 'stale':
